@@ -55,3 +55,7 @@ Proof.
   change (s_remaining_budget (fst (step M.rne24 (reward_src sparse) s a))) with (M.budget (conv (fst (step M.rne24 (reward_src sparse) s a)))).
   rewrite E. exact (C06_budget_nonneg_float32 sparse (conv s) a H).
 Qed.
+
+(* C03 on the translated step: never FIRST, MID with discount 1 or LAST with discount 0 (no truncation) -- any state, any action *)
+Lemma src_step_protocol rnd sparse s a : step_ok 1 false (snd (step rnd (reward_src sparse) s a)) = true.
+Proof. destruct (step_src rnd sparse s a) as [_ E]. rewrite E. apply C03_step_protocol. Qed.
